@@ -54,12 +54,18 @@ func harnessC17Chain() {
 	}
 	ne := vInt(0, E)
 	failAt := vInt(-1, ne-1)
-	type edge struct{ f, t int }
+	retOther := vInt(-1, ne-1) // this upcaster returns a type that may differ from its registered target
+	type edge struct{ f, t int } // t: the type the upcaster RETURNS (what the chain continues from)
 	var edges []edge
 	for k := 0; k < ne; k++ {
 		k := k
 		f := vPick(3)
 		t := f + 1 + vPick(3-f)
+		declared := names[t]
+		if k == retOther {
+			// a raw upcaster may return another (later) type than the one it was registered for
+			t = f + 1 + vPick(3-f)
+		}
 		to := names[t]
 		fn := func(d json.RawMessage) (json.RawMessage, string, error) {
 			if k == failAt {
@@ -72,7 +78,7 @@ func harnessC17Chain() {
 			out, err := json.Marshal(c17Doc{Trace: append(append([]int{}, tr...), k)})
 			return out, to, err
 		}
-		vAssert(RegisterUpcastFunc(bus, names[f], to, fn) == nil, "register-ok")
+		vAssert(RegisterUpcastFunc(bus, names[f], declared, fn) == nil, "register-ok")
 		edges = append(edges, edge{f, t})
 	}
 	// one stored event of every name
